@@ -816,11 +816,13 @@ impl<const N: usize> RegisterAllocator<N> {
     }
 
     fn op_copy_imm(&mut self, out: u32, imm: f32) {
-        self.op_out_only(out, |o: u8| -> (r: RegOp) ensures r == RegOp::CopyImm(o, imm) { RegOp::CopyImm(o, imm) });
+        let f = |o: u8| -> (r: RegOp) ensures r == RegOp::CopyImm(o, imm) { RegOp::CopyImm(o, imm) };
+        self.op_out_only(out, f);
     }
 
     fn op_input(&mut self, out: u32, i: u32) {
-        self.op_out_only(out, |o: u8| -> (r: RegOp) ensures r == RegOp::Input(o, i) { RegOp::Input(o, i) });
+        let f = |o: u8| -> (r: RegOp) ensures r == RegOp::Input(o, i) { RegOp::Input(o, i) };
+        self.op_out_only(out, f);
     }
 
     fn op_output(&mut self, arg: u32, i: u32) {
